@@ -25,7 +25,7 @@ func init() {
 			"R3: the store in Write is dominated by the not-full edge of Len()==Cap() - or of next(write index)==read index, next(w) being a value proved to be a valid slot equal to w+1 or w+1-len(buf): with one slot kept empty (Cap()=len(buf)-1, Len()=(w-r) mod len(buf)) the two tests are the same - and the full edge returns an error wrapping ErrExhausted; the load in Read is dominated by the not-empty edge (Len() != 0, or read index != write index) and the empty edge returns io.EOF; every load in At is dominated by the in-range edges of idx<0 || idx>=Len() and the out-of-range edge panics. " +
 			"R4: the constructor allocates size+1 slots and Cap() returns len(buf)-1. " +
 			"R6: the count a caller passes to Skip is clamped to Len(), len(buf) or another quantity of the buffer state that cannot exceed len(buf) (guard or phi over the clamped edge; a loop variable that enters the loop clamped and is only decreased in it - every back-edge operand is the variable minus something - stays clamped) before it is added to an index; the parameters of a private helper count as requests unless every call passes a count that is already clamped or was not a request (the obligation is then recorded at those calls). " +
-			"R5: where At folds read index + i back into the array, the fold (subtract len(buf), as an offset variable, a re-assigned position or a separate load) is selected by the test >= len(buf), or is the remainder modulo len(buf): slot len(buf) does not exist; other spellings (two-segment views, an offset len(buf)-r, a slot helper) are located symbolically: a load at read index + idx - len(buf) must sit behind a test that says exactly read index + idx - len(buf) >= 0. R7: a readable segment whose end is chosen by the order of read and write index (by the value of its upper bound, or by a branch on the order of the indices that selects the segment up to the end of the array) is taken only behind a test that the indices differ (Len() > 0, r != w, r < w, r > w, also made by a boolean or classifying helper) that holds from the entry and from every advance of the read index; buf[r:w] alone is the empty segment when the ring is empty. R8: helpers the buffer hands parts of its backing array to re-slice them with a constant bound only behind a test that the part is that long. R9: where the position of an access into the backing array (a segment bound, an element index) both uses an index by value and is chosen among alternatives by a test that reads the same index (up to the write index or to the end of the array; clamp at the end of the array; fold by len(buf)), the test and the position read the same value of that index: no write to the index (direct, in a callee, through a function value) separates the read the test was made on from the access unless it separates the by-value read as well; counts planned from an earlier state and loop-carried variables are not positions and are not followed. R10: for every advance of the read index from o to v with zeroing attached (zero stores, SliceFill(part, zero), also in a private helper it calls), the parts released on every path chain up from o to v (to v+len(buf) when the index wrapped, a part [lo,hi) standing also for [lo+len(buf),hi+len(buf))) and every part that may be released lies inside that range, unless the call consumes everything; proved with the symbolic linear bounds under every choice of phi edges and helper exits. R11: at every exit of an exported method with an int result that advances the read index (Skip, ReadN) the result is proved >= 0 with the same bounds (a loop variable by induction over its back edges): 0 for non-positive requests, never the negative request itself. R12: every advance of the write index from o to v (any method, block writes included) keeps the spare slot: v <= r-1 when o < r and v <= r-1+len(buf) when o >= r, proved with the same bounds in both cases; an advance by one element behind the not-full guard is R3's case.",
+			"R5: where At folds read index + i back into the array, the fold (subtract len(buf), as an offset variable, a re-assigned position or a separate load) is selected by the test >= len(buf), or is the remainder modulo len(buf): slot len(buf) does not exist; other spellings (two-segment views, an offset len(buf)-r, a slot helper) are located symbolically: a load at read index + idx - len(buf) must sit behind a test that says exactly read index + idx - len(buf) >= 0. R7: a readable segment whose end is chosen by the order of read and write index (by the value of its upper bound, or by a branch on the order of the indices that selects the segment up to the end of the array) is taken only behind a test that the indices differ (Len() > 0, r != w, r < w, r > w, also made by a boolean or classifying helper) that holds from the entry and from every advance of the read index; buf[r:w] alone is the empty segment when the ring is empty. R8: helpers the buffer hands parts of its backing array to re-slice them with a constant bound only behind a test that the part is that long. R9: where the position of an access into the backing array (a segment bound, an element index) both uses an index by value and is chosen among alternatives by a test that reads the same index (up to the write index or to the end of the array; clamp at the end of the array; fold by len(buf)), the test and the position read the same value of that index: no write to the index (direct, in a callee, through a function value) separates the read the test was made on from the access unless it separates the by-value read as well; counts planned from an earlier state and loop-carried variables are not positions and are not followed. R10: for every advance of the read index from o to v with zeroing attached (zero stores, SliceFill(part, zero), also in a private helper it calls), the parts released on every path chain up from o to v (to v+len(buf) when the index wrapped, a part [lo,hi) standing also for [lo+len(buf),hi+len(buf))) and every part that may be released lies inside that range, unless the call consumes everything; proved with the symbolic linear bounds under every choice of phi edges and helper exits. R11: at every exit of an exported method with an int result that advances the read index (Skip, ReadN) the result is proved >= 0 with the same bounds (a loop variable by induction over its back edges): 0 for non-positive requests, never the negative request itself. R12: every advance of the write index from o to v (any method, block writes included) keeps the spare slot: v <= r-1 when o < r and v <= r-1+len(buf) when o >= r, proved with the same bounds in both cases; an advance by one element behind the not-full guard is R3's case. R13: an element access at index field +/- constant (the neighbour slot of the read or write index) is dominated by a range test on that index - every slot is a legal position of an eagerly wrapped index in every fill state, so without the test the access leaves the array at the edge and the call panics (x_c14_i.go).",
 		NotDecided: "FIFO order, the min(requested, Len) arithmetic of ReadN/Skip, the Len() formula: value statements. This is the thinnest claim of the twenty.",
 	})
 }
@@ -1362,6 +1362,8 @@ func runC14(c *Ctx) {
 	k.countsAreNonNegative(methods)
 	// R12: every advance of the write index leaves one slot empty (v_ring_h_write.go)
 	k.writeAdvancesKeepSpareSlot(scope)
+	// R13: a neighbour slot of an index is accessed only under a range test on the index (x_c14_i.go)
+	k.neighbourSlotsGuarded(scope, write)
 }
 
 // wrapsGlobal reports whether error value v is fmt.Errorf(... %w ...) with the repository sentinel `name`
